@@ -89,6 +89,14 @@ def trail(v):
     return _TRAIL[sum(map(ord, v)) % len(_TRAIL)]
 
 
+def lead(k, v):
+    """the blank run between a sub-directive keyword and its value (hand-aligned declaration blocks): one or more blanks or
+    tabs, none of them part of the value (deterministic in the text)"""
+    if k == ";":
+        return " "
+    return [" ", " ", "  ", "   ", "\t", " \t "][(sum(map(ord, v)) + len(k)) % 6]
+
+
 class Entry:
     """kind: 'txn' | 'account' | 'commodity' | 'comment' """
 
@@ -110,12 +118,12 @@ class Entry:
         if self.kind == "account":
             s = "account %s%s\n" % (self.name, trail(self.name))
             for k, v in self.details:
-                s += "    %s %s%s\n" % (k, v, trail(v) if k == "alias" else "")
+                s += "    %s%s%s%s\n" % (k, lead(k, v), v, trail(v) if k == "alias" else "")
             return s
         if self.kind == "commodity":
             s = "commodity %s%s\n" % (self.name, trail(self.name))
             for k, v in self.details:
-                s += "    %s %s%s\n" % (k, v, trail(v) if k == "alias" else "")
+                s += "    %s%s%s%s\n" % (k, lead(k, v), v, trail(v) if k == "alias" else "")
             return s
         s = "%s %s\n" % (self.date, self.payee)
         for p in self.postings:
@@ -181,7 +189,11 @@ class Gen:
         if r.random() < 0.2:
             details.insert(r.randint(0, len(details)), (";", "c %d" % idx))
         if kind == "c" and canonical != "JPY" and r.random() < 0.4:
-            details.insert(r.randint(0, len(details)), ("format", "1,000.00 %s" % canonical))
+            # a commodity declared again may give another number of places (amounts here have at most two, so nothing
+            # changes for the books); sub-directives that follow the format line count as before
+            places = 2 if canonical not in self.formatted else r.choice([2, 3, 4])
+            self.formatted.add(canonical)
+            details.insert(r.randint(0, len(details)), ("format", "1,000.%s %s" % ("0" * places, canonical)))
         r.shuffle(details) if r.random() < 0.3 else None
         e = Entry("account" if kind == "a" else "commodity", name=canonical, details=details)
         for k, v in details:
